@@ -404,15 +404,16 @@ def _gen_musig(n, with_root):
             # boundary nonce secrets (the legal range is [1, n-1]): the first tuples carry n-1, 1 and n-2 in turn
             if t < 2 * n:
                 d["k%d%d" % (t // 2 + 1, t % 2 + 1)] = (N - 1, 1, N - 2, N - 1)[t % 4]
-            yield d
             # two (or all) participants announcing the SAME nonce pair is legal (nonces are chosen independently in
-            # [1, n-1]); a nonce aggregation that merges equal announcements loses a contribution (seed C13-E)
-            if t in (0, 3):
+            # [1, n-1]); a nonce aggregation that merges equal announcements loses a contribution (seed C13-E).  These
+            # tuples come first: the per-contract time budget is a few sessions only when the machine is busy
+            if t in (0, 1, 3):
                 e = dict(d)
-                who = range(2, n + 1) if t == 0 else (n,)
+                who = range(2, n + 1) if t != 3 else (n,)
                 for i in who:
                     e["k%d1" % i], e["k%d2" % i] = e["k11"], e["k12"]
                 yield e
+            yield d
     return gen
 
 
